@@ -1086,7 +1086,9 @@ Fixpoint ifok1b (s : stmt) : bool :=
       match els with Some b => okl b | None => true end
   | SWhile _ _ b => okl b
   | SDoWhile _ b _ => okl b
-  | SSwitch _ _ _ cases => (fix go (cs : list scase) : bool := match cs with [] => true | c :: r => okl (sc_body c) && go r end) cases
+  | SSwitch _ _ _ cases =>
+      negb (match cases with [] => true | _ => false end) &&
+      (fix go (cs : list scase) : bool := match cs with [] => true | c :: r => okl (sc_body c) && go r end) cases
   | _ => true
   end.
 Fixpoint ifokb (ss : list stmt) : bool := match ss with [] => true | x :: r => ifok1b x && ifokb r end.
@@ -1116,8 +1118,17 @@ Proof.
   - change (ifok1b (SWhile tag c body)) with (ifok_local body). intros H b [<-|[]]. rewrite <- ifok_local_eq. exact H.
   - change (ifok1b (SDoWhile tag body c)) with (ifok_local body). intros H b [<-|[]]. rewrite <- ifok_local_eq. exact H.
   - change (ifok1b (SSwitch tag op ol cases)) with
-      ((fix go (cs : list scase) : bool := match cs with [] => true | c :: r => ifok_local (sc_body c) && go r end) cases).
-    intros H b I. induction cases as [|c r IH]; [destruct I|]. apply andb_prop in H. destruct H as [A B']. destruct I as [<-|I]; [now rewrite <- ifok_local_eq|auto].
+      (negb (match cases with [] => true | _ => false end) &&
+       (fix go (cs : list scase) : bool := match cs with [] => true | c :: r => ifok_local (sc_body c) && go r end) cases).
+    intros H b I. apply andb_prop in H. destruct H as [_ H].
+    induction cases as [|c r IH]; [destruct I|]. apply andb_prop in H. destruct H as [A B']. destruct I as [<-|I]; [now rewrite <- ifok_local_eq|auto].
+Qed.
+Lemma ifok1_switch tg op ol cases : ifok1b (SSwitch tg op ol cases) = true -> cases <> [].
+Proof.
+  change (ifok1b (SSwitch tg op ol cases)) with
+      (negb (match cases with [] => true | _ => false end) &&
+       (fix go (cs : list scase) : bool := match cs with [] => true | c :: r => ifok_local (sc_body c) && go r end) cases).
+  intros H. destruct cases; [discriminate|discriminate].
 Qed.
 Lemma ifok1_if conds els : ifok1b (SIf conds els) = true -> conds <> [].
 Proof.
